@@ -17,6 +17,8 @@ CHECKS = {
          'decides: never resurrected, destroy iff delete_id on wl_display / server-id reuse, annotation is the destroyed object, lifespan = destroy-create, server range constant. NOT decided: display rounding.'),
  'C04': ('effect closure of the ingestion path, scenario evaluation of open/route/close, writer enumeration of connection tables',
          'decides: no shared mutable state between connections (except time origin and immutable caches), routing by id, naming A,B,C.. from one counter, reopen closes first and creates a fresh connection, close once, log back end opens before first message and closes all at end. NOT decided: interleaving-independence as observable equality (follows from the above).'),
+ 'C05': ('path enumeration with three-valued evaluation of the combinators (list, argument list, pair, pattern); projection table of the value matchers; folding of the wildcard construction; role tables of the parser',
+         'decides ONLY structural clauses: a list matches iff some alternative and no exclusion does; every item of an argument list needs some argument and no excluded item any (lists/arguments up to the unrolling bound); a pattern selects messages on / creating (.new) / destroying (.destroyed) its object, the bare form adds messages mentioning it; * is everything and ! nothing; which part of an argument / object / connection each value matcher is applied to; a word with * becomes the anchored escaped pattern with .* for *; which piece of `conn: obj.name(args)`, of `a, b ! c` and of `name=value` becomes which matcher, brackets recursing into the same sub-parser, every piece stripped of blanks. NOT decided: what matches() returns for a given expression and message (the property as a whole), soundness of simplify() beyond C12.6, the bracket/quote-aware splitter on arbitrary nesting, regular-expression semantics.'),
  'C06': ('scenario evaluation of the live-view guard, who-calls tables, transitive write sets',
          'decides: recorded always and first, shown iff (no selection or this connection) and filter, one display route, once per arrival, filter/selection commands touch no record and display nothing, matches() pure. NOT decided: what matches() returns (C05).'),
  'C10': ('scenario evaluation (breakpoint guard, invoke_command, prompt loop), call-graph closures over the command registry, writer enumeration of flags',
@@ -48,7 +50,6 @@ CHECKS = {
 }
 
 NOT_APPLICABLE = {
- 'C05': 'denotational meaning of the matcher DSL over all expressions x messages: every structural clause is either not necessary or the implementation restated; needs execution / symbolic evaluation (outside static analysis). Neighbouring decidable facts are claimed under C06.5 (purity), C12.3/5, C18.2/3.',
 }
 
 PENDING = ['C07', 'C08', 'C09', 'C13', 'C14', 'C15', 'C17', 'C18', 'C19']
